@@ -83,7 +83,7 @@ func (vc *VC) findAddrTaken() {
 }
 
 func newVC(prog *Program, fi *FuncInfo) *VC {
-	full := funcFullName(fi.Obj)
+	full := fi.Full()
 	short := full[strings.LastIndex(full, "/")+1:]
 	vc := &VC{prog: prog, fi: fi, pkg: fi.Pkg, info: fi.Pkg.TypesInfo, con: prog.Contracts[full], unit: short,
 		occ: map[string]int{}, nodeOcc: map[ast.Node]map[string]int{}, abstr: map[string]int{}, heapSorts: map[string]string{},
@@ -146,6 +146,19 @@ func (vc *VC) Run() {
 				}
 			}
 		}
+	}
+	for _, o := range vc.fi.Free {
+		// captured variables of a goroutine body: unknown values of their types, like parameters (the body only reads
+		// them or writes through them; an assignment to a captured variable itself goes through addrTaken/declare)
+		v := vc.freshVal(o.Type(), o.Name())
+		vc.paramFacts(v, na)
+		vc.entry.vars[o] = v
+		if vc.addrTaken[o] {
+			vc.declare(o, v, st)
+		} else {
+			st.vars[o] = v
+		}
+		vc.params = append(vc.params, o)
 	}
 	for _, f := range fd.Type.Params.List {
 		t := vc.info.TypeOf(f.Type)
